@@ -373,6 +373,7 @@ class Engine:
         self.types = {}          # term -> qualType (for atoms)
         self.npaths = 0
         self.record_loads = False
+        self.clobber_origin = {}     # havoc atom -> location it stands for (value after a call that may have written it)
 
     # -- lookup ------------------------------------------------------------
     def find_fn(self, name):
@@ -773,7 +774,10 @@ class _Activation:
                     continue
                 if key in lmap:
                     continue
-                pre = st.mem.get(key, key)
+                rl = self.e.record_loads
+                self.e.record_loads = False
+                pre = self.read(st, key)
+                self.e.record_loads = rl
                 for kk in [kk for kk in st.mem if kk == key or rooted_at(kk, ('&', key))]:
                     del st.mem[kk]
                 h = fresh(tag + ':' + fmt(key))
@@ -1155,11 +1159,14 @@ class _Activation:
             if rooted_at(key, r) and key != r:
                 h = fresh('clobbered:' + fmt(key))
                 self.e.types[h] = self.e.types.get(key)
+                self.e.clobber_origin[h] = key
                 st.mem[key] = h
                 return h
         return key
 
     def field_of(self, sv, field):
+        if sv[0] in ('f', 'i', 'v'):
+            return ('f', ('&', sv), field)       # field of an unmodified object: its own location term
         if sv[0] == 'struct':
             for f, v in sv[2]:
                 if f == field:
@@ -1172,6 +1179,10 @@ class _Activation:
     def whole_struct(self, st, key):
         """value of struct-typed location key as a term"""
         base = st.mem.get(key)
+        if base is None:
+            r = self.read(st, key)
+            if r != key:
+                base = r
         over = []
         pref = ('&', key)
         for kk, v in st.mem.items():
